@@ -5,13 +5,13 @@ import sys, json, random, os
 sys.path.insert(0, os.path.join(os.path.dirname(os.path.abspath(__file__)), '..', 'lib'))
 from common import tag
 rnd = random.Random(int(sys.argv[1]) * 31 + 5); N = int(sys.argv[2])
-KEYS = ['\x7f', 'a\x7fb', 'a', 'b', 'ab', 'a b', "a'b", 'a"b', '', '0', '1', '10', 'é', '☺', '𝄞', "'a'", '"a"', 'a/b', 'a~b', '~0', '~1', '/', '\\', 'x\ty', 'x\ny', '\u0001', ' a', 'a ', '-1', '01', 'a.b', '[0]', '$', '@', '*', 'a ', ' ']
+KEYS = ['[?', 'why[?]', '[?@.x]', 'a..b', '[*]', 'a,b', 'a:b', '$', '@', 'a]', '[', ']', '*', '..', 'a.b', '(a)', '!a', 'a&&b', 'a==b', '#', '?'] + ['\x7f', 'a\x7fb', 'a', 'b', 'ab', 'a b', "a'b", 'a"b', '', '0', '1', '10', 'é', '☺', '𝄞', "'a'", '"a"', 'a/b', 'a~b', '~0', '~1', '/', '\\', 'x\ty', 'x\ny', '\u0001', ' a', 'a ', '-1', '01', 'a.b', '[0]', '$', '@', '*', 'a ', ' ']
 SCAL = [None, True, 0, 1, 'a', 1.5]
 def doc(depth=0):
     r = rnd.random()
     if depth >= 3 or r < 0.3: return rnd.choice(SCAL)
     if r < 0.55: return [doc(depth + 1) for _ in range(rnd.choice([0, 1, 2, 3]))]
-    pool = KEYS[:8] if rnd.random() < 0.5 else KEYS
+    pool = ['a', 'b', 'ab', 'a b', "a'b", 'a"b', '', '0'] if rnd.random() < 0.5 else KEYS
     return {k: doc(depth + 1) for k in rnd.sample(pool, rnd.choice([0, 1, 2, 3, 4]))}
 def locs(v, l, acc):
     acc.append(l)
